@@ -72,20 +72,20 @@ Lemma foreign_end_loop_ok t : scalar_tok t ->
 Proof.
   intro Sc. induction i as [|i IH]; intros first s I L Sh NT Hi; cbn [foreign_end_loop].
   - rewrite wp_bind. apply wp_probe. rewrite wp_ret. apply step_post_done.
-    eapply TInv_core_eq; [apply core_eq_set_out | exact I].
+    eapply TInv_core_eq; [(apply core_eq_set_out; reflexivity) | exact I].
   - rewrite wp_bind, wp_get, wp_bind, wp_unwrap.
     destruct (nth_error (open_elems s) (S i)) as [node|] eqn:En; [|apply nth_error_None in En; lia].
     exists node. split; [reflexivity|]. cbv zeta.
-    assert (Io : forall v, TInv (set_out v s)) by (intro v; eapply TInv_core_eq; [apply core_eq_set_out | exact I]).
+    assert (Io : forall ev, significant ev = false -> TInv (set_out (ev :: out s) s)) by (intros ev Hev; eapply TInv_core_eq; [apply core_eq_set_out; apply sig_cons_insig; exact Hev | exact I]).
     destruct (negb first && str_eqb (fst (ename_of s node)) ns_html).
     + rewrite wp_bind. apply wp_probe.
-      apply (step_ok (set_out (EvArm 30 40 :: out s) s) t); [apply Io | apply Hshape_set_out; exact Sh | apply tok_ok_not_text; exact NT | exact Sc].
+      apply (step_ok (set_out (EvArm 30 40 :: out s) s) t); [apply Io; reflexivity | apply Hshape_set_out; exact Sh | apply tok_ok_not_text; exact NT | exact Sc].
     + destruct (eq_ignore_ascii_case (snd (ename_of s node)) (tname t)).
       * rewrite wp_bind. apply wp_probe. rewrite wp_bind, wp_modify, wp_ret. apply step_post_done.
         apply keeps_TInv with (s0 := set_out (EvArm 30 41 :: out s) s).
-        apply keeps_truncate; [apply keeps_refl; apply Io | exact L | lia].
+        apply keeps_truncate; [apply keeps_refl; apply Io; reflexivity | exact L | lia].
       * rewrite wp_bind. destruct first.
-        -- rewrite wp_parse_error. apply IH; [apply Io | exact L | apply Hshape_set_out; exact Sh | exact NT | cbn; lia].
+        -- rewrite wp_parse_error. apply IH; [apply Io; reflexivity | exact L | apply Hshape_set_out; exact Sh | exact NT | cbn; lia].
         -- rewrite wp_ret. apply IH; [exact I | exact L | exact Sh | exact NT | lia].
 Qed.
 
@@ -94,7 +94,7 @@ Lemma unexpected_start_ok s t : TInv s -> late s -> mode s <> Text -> scalar_tok
 Proof.
   intros I L NT Sc. unfold unexpected_start_tag_in_foreign_content.
   apply wps_bind_wp. rewrite wp_parse_error. set (s2 := set_out _ s).
-  assert (I2 : TInv s2) by (eapply TInv_core_eq; [apply core_eq_set_out | exact I]).
+  assert (I2 : TInv s2) by (eapply TInv_core_eq; [(apply core_eq_set_out; reflexivity) | exact I]).
   apply wps_bind_wp.
   eapply (wp_pop_to_html_or_integration_point s2 s2); [apply keeps_refl; exact I2 | exact L |].
   intros s3 K3 _. pose proof K3 as [I3 S3].
@@ -126,7 +126,7 @@ Proof.
     destruct R as [-> | ->]; exact (keeps_TInv _ _ K'). }
   arm_cases k Eb.
   - apply wp_wps. rewrite wp_bind, wp_parse_error.
-    eapply (wp_append_text s1); [apply keeps_set_out; exact K1 | exact L1 |].
+    eapply (wp_append_text s1); [(apply keeps_set_out; [|reflexivity]); exact K1 | exact L1 |].
     intros s' K' _. apply step_post_done. exact (keeps_TInv _ _ K').
   - apply wp_wps. rewrite wp_bind, wp_when.
     assert (Fin : forall s2, keeps s1 s2 -> wp (append_text (tk_text t)) (step_post t) s2).
@@ -222,11 +222,11 @@ Proof.
       apply step_foreign_ok; [exact I | exact L | exact Sh | apply foreign_not_text; assumption | exact NH | exact Sc | exact NE].
     - apply wp_wps. rewrite wp_bind, wp_get. apply step_ok; assumption. }
   eapply wps_mono; [exact Step|]. intros r s1 [TR [ST CO]]. apply wp_wps.
-  assert (Io : forall v sx, TInv sx -> TInv (set_out v sx)) by (intros v sx X; eapply TInv_core_eq; [apply core_eq_set_out | exact X]).
+  assert (Io : forall ev sx, significant ev = false -> TInv sx -> TInv (set_out (ev :: out sx) sx)) by (intros ev sx Hev X; eapply TInv_core_eq; [apply core_eq_set_out; apply sig_cons_insig; exact Hev | exact X]).
   destruct r as [| |buf|m t'|t'|node| |k|e]; simpl in TR, ST.
   - (* Done *)
     rewrite wp_bind. destruct (is_self_closing_start t).
-    + rewrite wp_bind. apply wp_probe. rewrite wp_parse_error. apply (iter_next _ more t); [do 2 apply Io; exact TR | exact Q].
+    + rewrite wp_bind. apply wp_probe. rewrite wp_parse_error. apply (iter_next _ more t); [do 2 (apply Io; [reflexivity|]); exact TR | exact Q].
     + rewrite wp_ret. apply (iter_next _ more t); [exact TR | exact Q].
   - apply (iter_next _ more t); [exact TR | exact Q].
   - (* SplitWhitespace *)
@@ -239,7 +239,7 @@ Proof.
       pose proof (queue_all_chars _ _ Q) as A. destruct rest; [exact A|].
       apply Forall_app. split; [exact A | constructor; [reflexivity | constructor]]. }
     destruct (negb (is_nil rest)).
-    + apply wp_probe. rewrite wp_ret. apply Fin. apply Io. exact TR.
+    + apply wp_probe. rewrite wp_ret. apply Fin. apply Io; [reflexivity | exact TR].
     + rewrite wp_ret. apply Fin. exact TR.
   - (* Reprocess *)
     destruct TR as [TR NT]. subst t'. unfold set_mode_m. rewrite wp_bind, wp_modify, wp_ret.
@@ -326,7 +326,7 @@ Proof.
     set (s2 := set_ignore_lf _ s1).
     assert (I2 : TInv s2) by (eapply TInv_core_eq; [apply core_eq_set_ignore_lf | exact I1]).
     assert (M2 : mode s2 = mode s) by exact M1.
-    assert (Io : forall v sx, TInv sx -> TInv (set_out v sx)) by (intros v sx X; eapply TInv_core_eq; [apply core_eq_set_out | exact X]).
+    assert (Io : forall ev sx, significant ev = false -> TInv sx -> TInv (set_out (ev :: out sx) sx)) by (intros ev sx Hev X; eapply TInv_core_eq; [apply core_eq_set_out; apply sig_cons_insig; exact Hev | exact X]).
     destruct tk as [name pub sys fq|k name sc attrs dup|x|x| | |].
     - (* doctype *)
       destruct (mode_eqb (mode s1) Initial) eqn:Em.
@@ -341,15 +341,15 @@ Proof.
              wp (do_set_quirks quirk ;; set_mode_m BeforeHtml ;; ret (inl SContinue)) prelude_post s4).
           { intros s4 I4 M4. unfold do_set_quirks, set_mode_m. rewrite wp_bind, wp_bind, wp_modify, wp_emit, wp_bind, wp_modify, wp_ret.
             split; [|exact Logic.I].
-            apply TInv_set_mode_early; [apply Io; eapply TInv_core_eq; [apply core_eq_set_quirks_mode | exact I4] | | reflexivity].
+            apply TInv_set_mode_early; [apply Io; [reflexivity|]; eapply TInv_core_eq; [apply core_eq_set_quirks_mode | exact I4] | | reflexivity].
             cbn. rewrite M4. reflexivity. }
           destruct (negb (o_drop_doctype (opts s1))).
-          - rewrite wp_emit. apply Fin2; [apply Io; exact I3 | exact M3].
+          - rewrite wp_emit. apply Fin2; [apply Io; [reflexivity|]; exact I3 | exact M3].
           - apply Fin2; assumption. }
         destruct err.
-        * rewrite wp_parse_error. apply Fin; [do 2 apply Io; exact I2 | exact Em].
-        * apply Fin; [apply Io; exact I2 | exact Em].
-      + rewrite wp_bind. apply wp_probe. rewrite wp_bind, wp_parse_error, wp_ret. split; [do 2 apply Io; exact I2 | exact Logic.I].
+        * rewrite wp_parse_error. apply Fin; [do 2 (apply Io; [reflexivity|]); exact I2 | exact Em].
+        * apply Fin; [apply Io; [reflexivity|]; exact I2 | exact Em].
+      + rewrite wp_bind. apply wp_probe. rewrite wp_bind, wp_parse_error, wp_ret. split; [do 2 (apply Io; [reflexivity|]); exact I2 | exact Logic.I].
     - (* tag *)
       rewrite wp_ret. split; [exact I2|]. split.
       + intro X. rewrite M2 in X. specialize (TO X). simpl in TO. subst k. reflexivity.
@@ -362,7 +362,7 @@ Proof.
       cbv zeta. rewrite wp_bind, wp_when.
       match goal with |- (if ?c then _ else _) => destruct c end.
       + apply wp_probe. match goal with |- wp (match ?l with [] => _ | _ :: _ => _ end) _ _ => destruct l end;
-          rewrite wp_ret; (split; [apply Io; exact I2 | first [exact Logic.I | split; [intros _; reflexivity | exact Logic.I]]]).
+          rewrite wp_ret; (split; [apply Io; [reflexivity|]; exact I2 | first [exact Logic.I | split; [intros _; reflexivity | exact Logic.I]]]).
       + match goal with |- wp (match ?l with [] => _ | _ :: _ => _ end) _ _ => destruct l end;
           rewrite wp_ret; (split; [exact I2 | first [exact Logic.I | split; [intros _; reflexivity | exact Logic.I]]]).
     - (* null *)
@@ -371,9 +371,9 @@ Proof.
     - (* eof *)
       rewrite wp_ret. split; [exact I2|]. split; [intros _; reflexivity | exact Logic.I].
     - (* parse error *)
-      rewrite wp_bind, wp_parse_error, wp_ret. split; [apply Io; exact I2 | exact Logic.I]. }
+      rewrite wp_bind, wp_parse_error, wp_ret. split; [apply Io; [reflexivity|]; exact I2 | exact Logic.I]. }
   destruct (negb (N.eqb line 1)).
-  - rewrite wp_emit. apply Rest; [apply core_eq_set_out | reflexivity].
+  - rewrite wp_emit. apply Rest; [(apply core_eq_set_out; reflexivity) | reflexivity].
   - apply Rest; [apply core_eq_refl | reflexivity].
 Qed.
 
@@ -392,7 +392,7 @@ Lemma TInv_init o : TInv (init_state o).
 Proof.
   constructor.
   - intros h e H. unfold einfo_of, init_state in H. cbn in H. destruct h as [|[|h]]; discriminate H.
-  - split; [|unfold next_handle; cbn; lia]. unfold handles_of. cbn. constructor; [|constructor]. unfold known, next_handle. cbn. lia.
+  - split; [|unfold next_handle; cbn; lia]. unfold state_handles. cbn. constructor.
   - reflexivity.
   - reflexivity.
   - intros _. reflexivity.
@@ -402,6 +402,8 @@ Proof.
   - intros (h & [] & _).
   - split; intros x H; discriminate H.
   - constructor.
+  - reflexivity.
+  - reflexivity.
 Qed.
 
 (* ---------- fragment parsing: TreeBuilder::new_for_fragment ---------- *)
@@ -436,9 +438,9 @@ Proof.
   intros I E Kc Hf. pose proof I as [I1 I2 I3 I4 I5 I6 I7 I8 I9 I10 I11].
   assert (Es : open_elems s = []) by (unfold root_ok in I3; rewrite E in I3; exact I3).
   constructor; try assumption.
-  - destruct I2 as [A B]. split; [|exact B]. unfold handles_of in *.
+  - destruct I2 as [A B]. split; [|exact B]. unfold state_handles in *.
     cbn [open_elems active_formatting head_elem form_elem context_elem set_template_modes set_form_elem set_context_elem].
-    inversion A as [|x l A0 A1]; subst. constructor; [exact A0|].
+    pose proof A as A1.
     apply Forall_app in A1. destruct A1 as [A1 A2]. apply Forall_app in A2. destruct A2 as [A2 A3].
     apply Forall_app in A3. destruct A3 as [A3 _].
     repeat (apply Forall_app; split); try assumption.
@@ -490,7 +492,7 @@ Proof.
   - rewrite wp_bind. unfold wp at 1. rewrite sink_create_element_eq.
     set (f := next_handle s1). set (s2 := new_elem_state _ _ _ s1).
     rewrite wp_ret. apply (Rest s2 (Some f)); [apply new_elem_keeps; exact K1 | | ].
-    + unfold s2. unfold known. rewrite new_elem_next. unfold known in Kc1. lia.
+    + unfold s2. eapply stable_known; [apply new_elem_stable | exact Kc1].
     + intros f' E. injection E as <-. split; [apply new_elem_known | apply new_elem_name].
   - rewrite wp_ret. apply (Rest s1 None); [exact K1 | exact Kc1 | intros f E; discriminate E].
 Qed.
@@ -605,8 +607,12 @@ Proof.
   unfold trace. rewrite !in_app_iff, !In_opt_list, In_af_handles. simpl. intuition.
 Qed.
 
-Theorem traced_handles_known s : TInv s -> Forall (known s) (trace s).
-Proof. intro I. exact (proj1 (inv_known _ I)). Qed.
+(* every traced handle is the Document or an element the sink created *)
+Theorem traced_handles_known s : TInv s -> forall h, In h (trace s) -> h = 0 \/ known s h.
+Proof.
+  intros I h [H|H]; [left; symmetry; exact H | right].
+  pose proof (proj1 (inv_known _ I)) as F. rewrite Forall_forall in F. apply F. exact H.
+Qed.
 
 (* ---------- C06 skeleton: what the invariant says about the stack and the pointers ---------- *)
 Theorem stack_bottom_is_html s : TInv s -> early_mode (mode s) = false ->
